@@ -169,6 +169,14 @@ def selection_sets(qt, m):
         a.append(i)
       if str(getattr(k2, 'value', k2)) != 'no_quantize':
         b.append(i)
+    # the virtual INPUT / OUTPUT operators (one result per graph input / none)
+    for vi, io in enumerate(tfu.get_subgraph_input_output_operators(g)):
+      k1, _ = rm.get_quantization_configs(io.op_key, cal(None, io, g.tensors))
+      k2, _ = rm.get_quantization_configs(io.op_key, pgs(None, io, g.tensors))
+      if str(getattr(k1, 'value', k1)) != 'no_quantize':
+        a.append(-1)
+      if str(getattr(k2, 'value', k2)) != 'no_quantize':
+        b.append(-1)
     res.append((a, b))
   return res
 
@@ -176,12 +184,20 @@ def selection_sets(qt, m):
 def regex_rules(rng, mb):
   """rules biased towards anchored / ';'-containing regexes (C10)"""
   scopes = gr.model_scopes(mb)
+  # scopes of the virtual INPUT operators: all graph input names
+  m0 = og.read(mb)
+  for g in m0.subgraphs:
+    scopes.append(('INPUT', ''.join(og.tname(g.tensors[x]) + ';' for x in g.inputs)))
+  multi = [x for x in scopes if x[1].count(';') >= 2]
   ncfg = gr.named_configs()
   present = sorted(set(k for k, _ in scopes if k))
   rules = []
   for _ in range(rng.choice([1, 2, 3])):
-    k, sc = rng.choice(scopes)
-    name = sc.rstrip(';').split(';')[0]
+    # ops with several results (SPLIT, INPUT of a multi-input graph) are
+    # over-sampled: their scope is the concatenation of ALL result names
+    k, sc = rng.choice(multi) if multi and rng.random() < 0.4 else rng.choice(scopes)
+    names = [x for x in sc.rstrip(';').split(';') if x] or ['']
+    name = rng.choice(names)
     form = rng.choice(['exact$', 'exact;$', '^exact;$', 'prefix', 'name;', '.*', 'name'])
     regex = {'exact$': re.escape(name) + '$', 'exact;$': re.escape(name) + ';$',
              '^exact;$': '^' + re.escape(sc) + '$',
@@ -376,8 +392,8 @@ def main():
           mism.append({'case': i, 'recipe': desc, 'what':
                        f'{name}: implementation value differs (bitwise) from model term {kv[1]}'})
           break
-      # selected real ops (ids >= 0) of this subgraph
-      if jsel[0] == 0 and [x for x in jsel[1] if x >= 0] != sel:
+      # selected ops of this subgraph (real ops, then the virtual I/O ops as -1)
+      if jsel[0] == 0 and list(jsel[1]) != list(sel):
         mism.append({'case': i, 'recipe': desc, 'what': 'selected ops',
                      'model': jsel[1], 'impl': sel})
   out = {
